@@ -56,6 +56,18 @@ func init() {
 			role := roles[r.intn(len(roles))]
 			all = append(all, scn{role: role, steps: cat(genScenario(r, role, r.intn(3) > 0), quietSuffix(role, r.intn(4)))})
 		}
+		// one lost reply: the chain back-end accepts the claim / refund, the adapter reports an error once
+		for _, chain := range []string{"btc", "lbtc"} {
+			blocks := "blocks btc 1008"
+			if chain == "lbtc" {
+				blocks = "blocks lbtc 10080"
+			}
+			all = append(all,
+				scn{role: "outSender", steps: []string{"new outSender " + chain, "agree", "txmsg", "fault preimage-after down", "confirm"}},
+				scn{role: "inReceiver", steps: []string{"new inReceiver " + chain, "txmsg", "fault preimage-after down", "confirm"}},
+				scn{role: "inSender", steps: []string{"new inSender " + chain, "agree", blocks, "fault csv-after down", "csv"}},
+				scn{role: "outReceiver", steps: []string{"new outReceiver " + chain, "feepaid", blocks, "fault csv-after down", "csv"}})
+		}
 		seen := map[string]bool{}
 		runMany(defaultCfg(), all, func(x scnResult) {
 			res.Evaluations++
@@ -93,6 +105,14 @@ func init() {
 				st := final
 				if st == "" {
 					st = "initial"
+				}
+				// a claim / refund that reached the chain while the node never learnt it (crash or lost reply between
+				// the broadcast and the store write): every later attempt double-spends the node's own transaction
+				for _, o := range x.w.obs {
+					if o.Kind == "spend-unrecorded" {
+						st += "/after-unrecorded-" + o.A["tx"] + "-broadcast"
+						break
+					}
 				}
 				res.addFinding(fmt.Sprintf("C16/%s/not-terminated/%s", x.sc.role, strings.TrimPrefix(st, "State_")),
 					fmt.Sprintf("after the peer went silent the swap rests in %s (active=%v) through timers, chain progress and four restarts", st, active), map[string]interface{}{"scenario": k})
